@@ -1,6 +1,7 @@
 import XlVerif.Model.X01
 import XlVerif.Model.X01Sem
 import XlVerif.Drv.EvalWire
+import XlVerif.Model.C04
 /-!
   Driver for X01, the integrated pipeline.
 
@@ -19,7 +20,10 @@ import XlVerif.Drv.EvalWire
         `X:compile:<Class>`        building the model raised
         `unsupported:compile:<what>`
       `exact=1`: every float taken or returned by a function call of this evaluation is exact in double
-      arithmetic (the strict run did not raise).
+      arithmetic (the strict run did not raise); `exact=2`: not so, but every step that met an inexact float is
+      well-conditioned (the soft run did not raise); `exact=0`: neither.
+  `hist <cells> <names> <ops> [<default sheet>]`   ops: `e~<addr>` | `s~<addr>~<S wire>` joined by `|`
+    → `impl=<r>|…  exact=…` for the `evaluate` calls of the history on ONE model and evaluator
   `coverage` → `integrated=<names>  exactpoint=<names>  not=<names>`
 -/
 namespace XlVerif.Drv.X01
@@ -83,15 +87,39 @@ def cerrW : CErr → String
   | .exc k => "X:compile:" ++ k.wire
   | .unsupported what => "unsupported:compile:" ++ String.ofList what
 
+def exactFlag (plain strict soft : Res) : String :=
+  if plain == strict then "1" else if plain == soft then "2" else "0"
+
 def evalAll (m : MState) (addrs : List Text) : String :=
   let rs := addrs.map fun a => fresh (guardOf libSem) fuel m a
   let ss := addrs.map fun a => fresh (strictOf (guardOf libSem)) fuel m a
-  let ex := (rs.zip ss).map fun (r, s) => if r == s then "1" else "0"
+  let ws := addrs.map fun a => fresh (softOf (guardOf libSem)) fuel m a
+  let ex := (rs.zip (ss.zip ws)).map fun (r, s, w) => exactFlag r s w
   let fx := addrs.map fun a =>
     match m.cell? (m.resolve a) with
     | some c => (match c.formula with | some f => fxW f | none => "-")
     | none => "-"
   kv [("impl", "|".intercalate (rs.map resX)), ("exact", "|".intercalate ex), ("fx", "|".intercalate fx)]
+
+/-- one call of a history: `e~<addr>` = `evaluator.evaluate(addr)`, `s~<addr>~<S wire>` = `evaluator.set_cell_value` -/
+def opOfWire? (w : String) : Option Model.C04.Op :=
+  match w.splitOn "~" with
+  | ["e", a] => (parseText? a).map .eval
+  | ["s", a, v] => do
+      let addr ← parseText? a
+      let x ← S.ofWire? v
+      pure (.set addr (.s x))
+  | _ => none
+
+/-- a history on ONE compiled model and ONE evaluator (`Model.C04.run`, the subject of `X01_history`): the results of
+    its `evaluate` calls, under the plain semantics and under the two exactness probes (each on its own copy) -/
+def histAll (m : MState) (ops : List Model.C04.Op) : String :=
+  let go (sem : Sem) : List Res := Model.C04.evalResults (Model.C04.run sem fuel m ops).2
+  let rs := go (guardOf libSem)
+  let ss := go (strictOf (guardOf libSem))
+  let ws := go (softOf (guardOf libSem))
+  let ex := (rs.zip (ss.zip ws)).map fun (r, s, w) => exactFlag r s w
+  kv [("impl", "|".intercalate (rs.map resX)), ("exact", "|".intercalate ex)]
 
 def handle (fields : List String) : String :=
   match fields with
@@ -102,6 +130,16 @@ def handle (fields : List String) : String :=
        (match compile src with
         | .ok m => evalAll m as
         | .error e => kv [("impl", "|".intercalate (as.map fun _ => cerrW e)), ("exact", ""), ("fx", "")])
+     | _, _ => "error=bad-request")
+  | "hist" :: cells :: names :: ops :: rest =>
+    let ds := match rest with | d :: _ => d | [] => textWire "Sheet1".toList
+    (match sourceOfWire? cells names ds, (splitNE ops "|").mapM opOfWire? with
+     | some src, some os =>
+       (match compile src with
+        | .ok m => histAll m os
+        | .error e =>
+          let n := (os.filter fun o => match o with | .eval _ => true | _ => false).length
+          kv [("impl", "|".intercalate ((List.replicate n ()).map fun _ => cerrW e)), ("exact", "")])
      | _, _ => "error=bad-request")
   | ["coverage"] =>
     kv [("integrated", ",".intercalate integratedNames), ("exactpoint", ",".intercalate exactPointOnly),
